@@ -51,7 +51,24 @@ pub fn gen_case(seed: u64, index: u64) -> Case {
                 f
             }
         };
-        let op = match rng.below(46) {
+        let op = match rng.below(52) {
+            // further producers of RBig values: only the canonical form (and R == X where both exist) is judged
+            46 => Op::new(rng.pick(&["r.nearest", "r.simplest"])).a(a).b(b).dst(d).n(rng.below(3) as i64),
+            47 => Op::new("r.fromfloat").a(a).dst(d),
+            // (r.fromf form 1 is simplest_from_f64, which exists for RBig only: forms 0 / 2 are the exact conversions)
+            48 => {
+                if rng.chance(1, 2) {
+                    Op::new("r.fromf").dst(d).n(rng.next() as i64).m(rng.below(16) as i64).form(rng.pick(&[0u64, 2, 3]))
+                } else {
+                    Op::new("r.const").dst(d).n(rng.next() as i64).m(rng.below(1 << 30) as i64).form(rng.below(5))
+                }
+            }
+            49 => Op::new("r.static").dst(d).n(rng.below(6) as i64).form(rng.below(3)),
+            50 => Op::new("r.str").a(a).dst(d).n(rng.below(35) as i64).form(rng.below(2)),
+            51 => {
+                let bits = 1 + rng.below(300) as usize;
+                Op::new("f.lit").dst(d).form(rng.below(3)).n(rng.range(-60, 60)).m(rng.below(200) as i64).lit(gen_lit_bits(&mut rng, bits))
+            }
             40 => Op::new("r.round").a(a).dst(d).form(rng.below(5)),
             41 => Op::new(rng.pick(&["r.fract", "r.split"])).a(a).dst(d).form(rng.below(3)),
             42 => Op::new("r.toint").a(a).dst(d),
@@ -96,15 +113,24 @@ pub fn gen_case(seed: u64, index: u64) -> Case {
             37 => Op::new("r.mulsign").a(a).dst(d).n(rng.below(2) as i64).form(f),
             38 => Op::new("r.rt").a(a).dst(d).form(rng.below(8)).lit(gen_lit_bits(&mut rng, 9)),
             39 if rng.chance(1, 2) => {
-                let n = rng.range(-40, 40);
-                let dd = rng.pick(&[0i64, 0, 1, 2, 3, 6, 10, 12, 40, -4]);
-                let text = match rng.below(4) {
-                    0 => format!("{}/{}", n, dd),
-                    1 => format!("{}", n),
-                    2 => format!("{}/{}", n * 6, dd.abs() * 6),
-                    _ => format!("0/{}", dd.abs()),
+                // the op carries what the text denotes: n / m (m = 0: must be refused), so the reference can judge it
+                let n = rng.range(-4000, 4000);
+                let dd = rng.pick(&[0i64, 0, 1, 2, 3, 6, 10, 12, 40, -4, -9, 1024, 999]);
+                let form = rng.below(2);
+                let (text, en, em): (String, i64, i64) = match rng.below(9) {
+                    0 => (format!("{}/{}", n, dd), n, dd),
+                    1 => (format!("{}", n), n, 1),
+                    2 => (format!("{}/{}", n * 6, dd.abs() * 6), n, dd.abs()),
+                    3 => (format!("0/{}", dd.abs()), 0, dd.abs()),
+                    4 => (format!("+{}/{}", n.abs(), dd), n.abs(), dd),
+                    5 if form == 1 => (format!("{:#x}/{:#x}", n.abs(), dd.abs()), n.abs(), dd.abs()),
+                    6 if form == 1 => (format!("-{:#o}/{:o}", n.abs(), dd.abs()), -n.abs(), dd.abs()),
+                    // prefixes that do not match, a denominator prefix without a numerator prefix: refused
+                    7 if form == 1 => (format!("{:#x}/{:#b}", n.abs(), dd.abs().max(1)), 0, 0),
+                    8 if form == 1 => (format!("{}/{:#x}", n, dd.abs().max(1)), 0, 0),
+                    _ => (format!("{}/+{}", n, dd.abs()), n, dd.abs()),
                 };
-                Op::new("r.parse").dst(d).form(rng.below(2)).lit(text.into_bytes())
+                Op::new("r.parse").dst(d).form(form).n(en).m(em).lit(text.into_bytes())
             }
             _ => Op::new("r.intoparts").a(a).dst(d),
         };
@@ -236,6 +262,14 @@ fn ref_exec(q: &[BigRational], op: &Op, w: &World) -> (RefOut, usize) {
                 (RefOut::Value(BigRational::new(n, d)), dst)
             }
         }
+        "parse" => {
+            // refused input leaves the slot as it is
+            if op.m == 0 {
+                (RefOut::Value(q[dst].clone()), dst)
+            } else {
+                (RefOut::Value(BigRational::new(BigInt::from(op.n), BigInt::from(op.m))), dst)
+            }
+        }
         "round" => {
             let x = &q[a];
             match form % 5 {
@@ -308,6 +342,10 @@ pub fn run_case(case: &Case, stats: &mut Stats, cnt: &mut C04Counters) -> CaseRe
         // Relaxed world first (its components are the larger ones: if a size guard skips it, skip the step)
         let mut xop = op.clone();
         xop.name = format!("x.{}", &op.name[2..]);
+        if matches!(&op.name[2..], "nearest" | "simplest" | "static") {
+            // operations that exist for RBig only: the Relaxed slot mirrors the result afterwards
+            xop = Op::new("nop");
+        }
         env.reset();
         simalloc::track(true);
         let rx = catch_unwind(AssertUnwindSafe(|| exec(&mut w, &xop, &mut env)));
@@ -328,6 +366,13 @@ pub fn run_case(case: &Case, stats: &mut Stats, cnt: &mut C04Counters) -> CaseRe
         let r_panicked = rr.is_err();
         drop(rr);
         let rp = if r_panicked { take_panic() } else { None };
+        if xop.name == "nop" && !r_panicked {
+            // RBig-only operation: mirror its result into the Relaxed world (harness-side, through the public conversion)
+            let d = ix(op.dst);
+            simalloc::track(true);
+            w.x[d] = w.r[d].clone().relax();
+            simalloc::track(false);
+        }
         for p in [&xp, &rp].into_iter().flatten() {
             if p.origin() == "harness" {
                 res.harness_error = Some(format!("harness panic at {}:{}: {}", p.file(), p.line, p.msg()));
